@@ -8,6 +8,8 @@ from ..decks import WORLD_SURF
 from ..judge import convert_deck, crash_violation
 
 ID = 'C10'
+UPSTREAM_DECKS = 'all'
+UPSTREAM_POINTS = False
 LEVEL = 'exploration'
 RULE = ('decks with 1-4 generated material cards (Z drawn over 1..118, mass '
         'number 000 / small / three digits, library suffixes .70c/.80c/.31c, '
@@ -223,6 +225,33 @@ def run(case, ctx):
                               f"{c['items'][:3]}"
                               for c in t4.compositions[:3]]}
     return out
+
+
+def upstream_judge(out, deck, sides, t4, name, run_=None):
+    '''The repository's example decks: every written composition against the
+    material card it is named after.'''
+    cards = {m.id: m for m in deck.mats}
+    for comp in t4.compositions:
+        parsed = matref.parse_comp_name(comp['name'])
+        if parsed is None or parsed[0] == 0 or parsed[0] not in cards:
+            continue
+        mid, rho_val = parsed
+        entries = cards[mid].entries
+        try:
+            signs = {matref.fortran_float(f) < 0 for _z, f in entries}
+            [matref.nuclide_name(z) for z, _f in entries]
+        except (ValueError, IndexError):
+            out.counters['upstream_cards_not_understood'] += 1
+            continue
+        if len(signs) != 1 or not entries:
+            continue
+        negative = signs.pop()
+        if negative and rho_val > 0:
+            continue        # weight fractions at an atom density: not stated
+        out.judged += 1
+        out.counters['compositions_judged'] += 1
+        judge_composition(out, comp, f'{name}: material m{mid} density '
+                          f'{rho_val}', entries, negative, rho_val)
 
 
 def judge_composition(out, comp, label, entries, negative, rho_val):
